@@ -4,7 +4,7 @@ from harness.props import c01 as B
 
 ID = "C05"
 ENTRY = "SearchArray.positions(term) on a freshly indexed array"
-LEVEL = "other"
+LEVEL = "proof"
 RULE = ("corpora whose documents place the queried terms on both sides of every multiple of 18 up to 180 and far into "
         "the document, documents with and without the term at the start / middle / end; all vocabulary terms queried "
         "(absent terms only against the model). Non-trivial = the term occurs at an offset >= 18 in some document and "
